@@ -48,6 +48,9 @@ fn run_one(ctx: &RunCtx, max_len: usize) -> RunOut {
     setup.apps = vec![app("app-SYS", [1, 0, 0, 0]), app("app-B", [2, 0, 0, 0])];
     setup.os_version = "1.0.0.0".into();
     let mut h = Hist::new(setup.clone(), Store::default());
+    // every HTTP exchange takes 40 s here, so that "when the install finished" and "after the reports
+    // were delivered" are different instants
+    h.ex().w.lock().unwrap().http_latency_ns = 40_000_000_000;
     let mut steps: Vec<Step> = vec![];
     let mut fail: Option<(String, String)> = None;
     // ---- reference state
@@ -225,7 +228,12 @@ fn run_one(ctx: &RunCtx, max_len: usize) -> RunOut {
                         2 => record.as_ref().and_then(|r| r.target.clone()), // system app not offered: target version untouched
                         _ => Some(if *manifest { TARGET.to_string() } else { "UNKNOWN".to_string() }),
                     };
-                    record = Some(Record { finish: this, target });
+                    // the finish time is read when the install has finished: not later than the sending of
+                    // the first report that follows the installer's return
+                    let done = seg.iter().position(|o| matches!(o, Obs::InstallDone(_)));
+                    let next_req_sent = done.and_then(|d| seg[d..].iter().find_map(|o| if let Obs::Req(r) = o { Some(r.sent_wall) } else { None }));
+                    let finish = (this.0, next_req_sent.map(|t| t.min(this.1)).unwrap_or(this.1));
+                    record = Some(Record { finish, target });
                     new_clean_record = true;
                     // crash at the first reboot question: the record must already be durable
                     let pos = seg.iter().position(|o| matches!(o, Obs::RebootNeeded { .. } | Obs::RebootAllowed { .. } | Obs::Reboot(_)));
